@@ -179,8 +179,13 @@ func B64(b []byte) string { return base64.StdEncoding.EncodeToString(b) }
 // NTLMAuthFunc returns a connection authenticator that performs the NTLM
 // type-1/type-2 exchange on the connection and yields the type-3 header.
 func NTLMAuthFunc(scheme, user, password, domain string) func(hc *HConn, method string) (Hdr, error) {
+	return NTLMAuthFuncX(scheme, user, password, domain, nil)
+}
+
+// NTLMAuthFuncX is NTLMAuthFunc with extra headers on the negotiate request.
+func NTLMAuthFuncX(scheme, user, password, domain string, extra Hdr) func(hc *HConn, method string) (Hdr, error) {
 	return func(hc *HConn, method string) (Hdr, error) {
-		r, err := hc.Do(method, GatewayPath, Hdr{{"Authorization", scheme + " " + B64(NTLMType1())}}, nil, 10e9)
+		r, err := hc.Do(method, GatewayPath, append(Hdr{{"Authorization", scheme + " " + B64(NTLMType1())}}, extra...), nil, 10e9)
 		if err != nil {
 			return nil, err
 		}
